@@ -113,6 +113,11 @@ class DerivCheckUnit(Unit):
                             spec.P[i][cc] = spec.P[cc][i] = 0.0
                         spec.P[cc][cc] = v
                     delta = -v
+                if which == 1 and spec.m >= 2 and r.random() < 0.6:
+                    # another row with curvature in the same column: its (correct) entry differs from the difference
+                    # quotient by the truncation error, which is within the tolerance: only the wrong row may be named
+                    i2 = r.choice([i for i in range(spec.m) if i != rr])
+                    spec.A[i2][cc][cc] = r.choice([-4.0, -2.0, 2.0, 4.0])
                 corrupt = [which, rr, cc, delta]
             cases.append({"spec": spec.to_json(), "sc": sc, "corrupt": corrupt, "x0": x0, "y0": y0,
                           "first": r.random() < 0.85, "second": r.random() < 0.85, "eps": 2.0 ** -10, "atol": atol,
